@@ -54,6 +54,10 @@ ASSUMPTIONS = [
     "per directory and service: UPLOAD precedes its UPLOADED/FAILED; one outcome per directory per history, but a report may be REPEATED "
     "(same UPLOADED / FAILED again, optionally the UPLOAD again: two replicas on one directory, a repeated report) - the directory's state "
     "does not change (tagged +own-report-repeated)",
+    "directories are named in Tor's forms $FP~nick / $FP=nick / bare $FP; in half of the cases all own directories share the nickname "
+    "'Unnamed' (fingerprints always differ): a directory is identified by the whole LongName",
+    "tagged preludes: the creation is started while the unsubscribing SETEVENTS of an earlier HS_DESC listener is still unanswered "
+    "(an errback retrying a refused ADD_ONION at once; an application listener removed just before)",
     "FAILED events carry REASON=UPLOAD_REJECTED, REASON=UNEXPECTED or no REASON field: all are upload failures of the named service",
     "tagged classes in which create() fails for a reason that is not Tor's answer: cancelled by the caller while the creating command / the "
     "wait's own SETEVENTS is unanswered, TorConfig.save() refusing a second service for an already configured directory: the cleanup clause applies",
@@ -81,11 +85,13 @@ FLOORS = {
     "quick": {"evaluations": 1200, "prefix_checks": 8000, "events_delivered": 5000, "outcomes_compared": 800,
               "cleanup_checked": 800, "metamorphic_pairs": 500, "liveness_obligations": 500,
               "cases_with_repeated_own_report": 100, "rejected_cases": 10,
+              "cases_with_colliding_own_hsdir_nicknames": 400, "cases_started_in_unsubscribe_window": 60,
               "reach:txtorcon.onion:_await_descriptor_upload": 1200,
               "reach:txtorcon.torcontrolprotocol:TorControlProtocol.remove_event_listener": 500},
     "thorough": {"evaluations": 60000, "prefix_checks": 400000, "events_delivered": 250000, "outcomes_compared": 40000,
                  "cleanup_checked": 30000, "metamorphic_pairs": 20000, "liveness_obligations": 20000,
                  "cases_with_repeated_own_report": 2000, "rejected_cases": 10,
+                 "cases_with_colliding_own_hsdir_nicknames": 20000, "cases_started_in_unsubscribe_window": 1000,
                  "reach:txtorcon.onion:_await_descriptor_upload": 60000},
 }
 
@@ -100,6 +106,32 @@ def fail_reason(case, d):
     if shift is None:
         shift = zlib.crc32(signature(case["stimuli"]).encode("ascii"))
     return FAIL_REASONS[(d + shift) % 3]
+
+
+# how Tor names the directories (HsDir = LongName): $FP~nick, $FP=nick (older), bare $FP; relays without a
+# configured nickname are all called "Unnamed", so nicknames collide while fingerprints never do
+NAME_STYLES = ("unique-nickname", "same-nickname", "mixed-forms-same-nickname", "bare-fingerprint")
+
+
+def name_style(case):
+    st = case.get("name_style")
+    if st is None:
+        st = (zlib.crc32(signature(case["stimuli"]).encode("ascii")) // 3) % 4
+    return st
+
+
+def hsdir_longname(style, i):
+    base = AO.hsdir_name(i)                    # "$<40 hex>~hsdir<i>"
+    fp = base.split("~", 1)[0]
+    if style == 0:
+        return base
+    if style == 1:
+        return fp + "~Unnamed"
+    if style == 2:
+        return (fp + "~Unnamed", fp + "=Unnamed", fp)[i % 3]
+    return fp
+
+
 ACT = {"U": "UPLOAD", "S": "UPLOADED", "F": "FAILED"}
 X = 9          # a directory the own service never uses
 
@@ -250,6 +282,11 @@ def random_case(rnd):
          "dirnames": names[:12]}
     if rnd.random() < 0.25:
         c["app_listener"] = True
+    elif rnd.random() < 0.2:
+        c["prelude"] = "app-listener-removed-just-before"
+    elif c["kind"] in ("eph3", "eph2", "auth-gen", "auth-key") and rnd.random() < 0.2:
+        c["prelude"] = "retry-after-rejected-creation"
+    c["name_style"] = rnd.randrange(4)
     return c
 
 
@@ -395,7 +432,7 @@ def signature(stimuli):
 
 class Run(object):
     __slots__ = ("fired_at", "ok", "err", "cbs", "left", "hs_subscribed", "last_setevents", "log", "twice_at",
-                 "progress", "sent", "suppressed", "harness", "value_ok", "delivered_own", "reasons")
+                 "progress", "sent", "suppressed", "harness", "value_ok", "delivered_own", "reasons", "name_style")
 
 
 _ROOT = []
@@ -432,6 +469,7 @@ def execute(case):
     r.harness = None
     r.value_ok = True
     r.reasons = set()
+    r.name_style = None
     r.left = []
     r.hs_subscribed = False
     r.last_setevents = None
@@ -442,6 +480,14 @@ def execute(case):
     if not cfg.post_bootstrap.called:
         r.harness = "config bootstrap stalled"
         return r
+    prelude = case.get("prelude")
+    if prelude == "app-listener-removed-just-before":
+        # the only HS_DESC listener of the connection is removed and, before Tor has answered the
+        # unsubscribing SETEVENTS, the creation installs its own
+        app_cb = lambda text: None
+        proto.add_event_listener("HS_DESC", app_cb)
+        link.pump()
+        proto.remove_event_listener("HS_DESC", app_cb)          # no pump: the 250 is still to come
     if case.get("app_listener"):
         # an application's own HS_DESC listener on the same connection: HS_DESC stays subscribed, and
         # removing the wait's listener needs no SETEVENTS round-trip
@@ -474,7 +520,30 @@ def execute(case):
             kw["await_all_uploads"] = None
         ports = ["80 127.0.0.1:8080"]
         reactor = OT.PortReactor()
-        if special == "badkey":
+        if prelude == "retry-after-rejected-creation":
+            # a first ADD_ONION is refused by Tor; the caller's errback retries the creation AT ONCE, i.e. while the
+            # unsubscribing SETEVENTS of the abandoned first wait is still unanswered.  The retry is the case judged.
+            def make():
+                if kind in ("eph3", "eph2"):
+                    return EphemeralOnionService.create(reactor, cfg, ports, version=int(kind[-1]), **kw)
+                pk = {"auth-gen": None, "auth-key": OT.KEYS.rsa(OT.CALLER_BASE).blob}[kind]
+                return EphemeralAuthenticatedOnionService.create(reactor, cfg, ports, version=2, private_key=pk,
+                                                                 auth=AuthBasic(["bob"]), **kw)
+            box = {}
+
+            def retry(f):
+                del r.cbs[:]
+                box["d"] = make()
+                return None
+            tor.script("ADD_ONION", (512, [("end", "Bad arguments: refused by the harness (first attempt)")]))
+            first = make()
+            first.addErrback(retry)
+            link.pump()
+            d = box.get("d")
+            if d is None:
+                r.harness = "first attempt was not refused / no retry started: %r" % (tor.lines[-3:],)
+                return r
+        elif special == "badkey":
             # key material the client itself must refuse (line break / type not matching the version)
             d = EphemeralOnionService.create(reactor, cfg, ports, version=int(kind[-1]),
                                              private_key=case["badkey"], **kw)
@@ -517,8 +586,11 @@ def execute(case):
             addr = tor.fs_services[-1].service_id if kind.startswith("fs") else list(tor.onions.values())[-1].service_id
         foreign = OT.KEYS.ed(78).service_id if len(addr) == 56 else OT.KEYS.rsa(OT.CALLER_BASE + 1).service_id
 
+        style = name_style(case)
+        r.name_style = style
+
         def dirname(dn):
-            return AO.hsdir_name(names[dn] if names else dn)
+            return hsdir_longname(style, names[dn] if names else dn)
         for i, s in enumerate(stimuli):
             if s[0] == "R":
                 if special not in ("rejected", "badkey", "dupdir"):
@@ -583,12 +655,15 @@ def projected(case):
     shift = case.get("reason_shift")
     if shift is None:
         shift = zlib.crc32(signature(case["stimuli"]).encode("ascii")) % 3
-    key = (case["kind"], case["await_all"], signature(st), tuple(case.get("dirnames") or ()), bool(case.get("app_listener")), shift)
+    nstyle = name_style(case)
+    key = (case["kind"], case["await_all"], signature(st), tuple(case.get("dirnames") or ()), bool(case.get("app_listener")),
+           shift, nstyle, case.get("prelude"))
     res = _PROJ.get(key)
     if res is None:
         c2 = dict(case)
         c2["stimuli"] = st
         c2["reason_shift"] = shift
+        c2["name_style"] = nstyle
         run = execute(c2)
         res = _PROJ[key] = (run.fired_at, run.ok, run.harness)
         if len(_PROJ) > 50000:
@@ -620,6 +695,10 @@ def run_case(case, rec):
             what += "+own-event-before-creating-reply+early-dir-results=" + early_results(stimuli, run.fired_at)
         if case.get("app_listener"):
             what += "+other-HS_DESC-listener-registered"
+        if case.get("prelude"):
+            what += "+" + case["prelude"]
+        if not special and name_style(case) in (1, 2) and len({t[2] for t in stimuli if t[0] == "o"}) > 1:
+            what += "+own-hsdir-nicknames-collide"
         rec.violation(clause, what if special else input_class(case, what), detail, case)
 
     if run.harness:
@@ -731,6 +810,12 @@ def run_case(case, rec):
             rec.count("progress_not_ending_at_100_on_success")
         if outcome != "ok" and 100.0 in pr:
             rec.count("progress_100_without_success")
+    if run.name_style is not None:
+        rec.seen("hsdir_name_styles", NAME_STYLES[run.name_style])
+        if run.name_style in (1, 2) and len({t[2] for t in stimuli if t[0] == "o"}) > 1:
+            rec.count("cases_with_colliding_own_hsdir_nicknames")
+    if case.get("prelude"):
+        rec.count("cases_started_in_unsubscribe_window")
     for rs in run.reasons:
         rec.seen("failed_reasons_delivered", rs)
     if has_own_duplicate(stimuli):
@@ -796,6 +881,13 @@ def shard_cases(spec):
             for aw in (False, True):
                 for kind in spec.get("kinds", ("eph3", "fs3", "auth-key")):
                     yield {"kind": kind, "await_all": aw, "stimuli": st}
+    elif mode == "prelude":
+        for st in own_cases(spec["maxn"]):
+            for aw in (False, True):
+                for kind in spec.get("retry_kinds", ("eph3", "auth-key")):
+                    yield {"kind": kind, "await_all": aw, "stimuli": st, "prelude": "retry-after-rejected-creation"}
+                for kind in spec.get("app_kinds", ("eph3", "fs3")):
+                    yield {"kind": kind, "await_all": aw, "stimuli": st, "prelude": "app-listener-removed-just-before"}
     elif mode == "applistener":
         # the same own schedules with another HS_DESC listener registered on the connection
         for st in own_cases(spec["maxn"]):
@@ -880,6 +972,8 @@ def plan(tier, seed):
                       "name": "own orderings over 1-2 directories with one report repeated at every later position x mode x 3 kinds"})
         specs.append({"mode": "dups", "maxn": 3, "minn": 3, "sample_every": 12,
                       "name": "sample of own orderings over 3 directories with one report repeated"})
+        specs.append({"mode": "prelude", "maxn": 2,
+                      "name": "own orderings over 1-2 directories x reply position x mode, creation started while an unsubscribing SETEVENTS is unanswered"})
         specs.append({"mode": "applistener", "maxn": 2, "kinds": ["fs3", "fs2", "eph3", "auth-key"],
                       "name": "own orderings over 1-2 directories x reply position x mode with another HS_DESC listener registered"})
         specs.append({"mode": "random", "n": 900})
@@ -905,6 +999,10 @@ def plan(tier, seed):
         for i in range(3):
             specs.append({"mode": "dups", "maxn": 3, "part": i, "parts": 3,
                           "name": "own orderings over 1-3 directories with one report repeated at every later position x mode x 3 kinds"})
+        for i in range(2):
+            specs.append({"mode": "prelude", "maxn": 3, "part": i, "parts": 2,
+                          "retry_kinds": ["eph3", "eph2", "auth-gen", "auth-key"], "app_kinds": list(KINDS),
+                          "name": "own orderings over 1-3 directories x reply position x mode, creation started while an unsubscribing SETEVENTS is unanswered"})
         for i in range(2):
             specs.append({"mode": "applistener", "maxn": 3, "part": i, "parts": 2,
                           "name": "own orderings over 1-3 directories x reply position x mode x 6 kinds with another HS_DESC listener registered"})
